@@ -250,7 +250,13 @@ class Sentinel(object):
 
 
 def extras(variant):
-    """0: nothing, 1: args and kwds, 2: args only, 3: kwds only"""
+    """0: nothing, 1: args and kwds, 2: args only, 3: kwds only, 4: ONE positional argument that is itself a tuple,
+    5: a (tuple, dict) pair of positional arguments (the call signature is (x, *args, **kwds): what f receives is
+    exactly what the call received, whatever its form)"""
+    if variant == 4:
+        return ((Sentinel('arg0'), Sentinel('arg1')),), {}
+    if variant == 5:
+        return ((Sentinel('arg0'),), {'alpha': Sentinel('alpha')}), {}
     args = (Sentinel('arg0'), Sentinel('arg1')) if variant in (1, 2) else ()
     kwds = {'alpha': Sentinel('alpha'), 'beta': Sentinel('beta')} if variant in (1, 3) else {}
     if variant == 1:
@@ -420,7 +426,7 @@ def xshapes(n):
 
 def unit_cases(unit, full):
     api, n, m, spec, pt = unit
-    ex = (0, 1, 2, 3) if full else (0, 1)
+    ex = (0, 1, 2, 3, 4, 5) if full else (0, 1, 4, 5)
     if api == 'Jacobian':
         for method in METHODS:
             for step in STEPS:
@@ -433,7 +439,7 @@ def unit_cases(unit, full):
             for method in METHODS:
                 for step in STEPS:
                     for kind, j0 in (('none', 0), ('inside', (n + 1) % n), ('corner', n % 2), ('hairline', 0), ('half-open', (n + 1) % n)):
-                        for e in (0, 1):
+                        for e in (0, 1, 4):
                             yield dict(api=api, n=n, m=1, map=list(spec), pt=pt, method=method, step=step,
                                        bounds=kind, j0=j0, extras=e, xshape=shp)
 
@@ -619,7 +625,7 @@ def run(ctx):
             for b in ('none', 'inside', 'corner', 'hairline', 'half-open')]
     req += ['J:n=%d' % n for n in range(1, 7)] + ['G:n=%d' % n for n in range(1, 7)]
     req += ['J:m=%d' % m for m in range(1, 6)] + ['J:affine', 'J:ridge', 'G:affine', 'G:ridge',
-                                                   'J:extras=0', 'J:extras=1', 'G:extras=0', 'G:extras=1',
+                                                   'J:extras=0', 'J:extras=1', 'G:extras=0', 'G:extras=1', 'J:extras=4', 'J:extras=5', 'G:extras=4',
                                                    'G:x=float', 'G:x=0-d', 'G:x=1-d', 'G:x=2-d']
     req += ['history/wrapper-object-reuse', 'history/reentrant']
     if full:
